@@ -471,8 +471,10 @@ class Run:
         self.known_hits[key] = self.known_hits.get(key, 0) + 1
 
     def finish(self):
-        os.makedirs(os.path.join(VERIF, "evidence"), exist_ok=True)
-        os.makedirs(os.path.join(VERIF, "replays", self.pid), exist_ok=True)
+        # VERIF_OUT: evidence and replays of a run against a scratch tree (bin/seedtest) go elsewhere
+        OUT = os.environ.get("VERIF_OUT") or VERIF
+        os.makedirs(os.path.join(OUT, "evidence"), exist_ok=True)
+        os.makedirs(os.path.join(OUT, "replays", self.pid), exist_ok=True)
         for key in sorted(self.known_hits):
             print("KNOWN-FINDING: property=%s %s [%s; %d case(s) this run]" %
                   (self.pid, self.known.text(self.pid, key), key, self.known_hits[key]))
@@ -484,7 +486,7 @@ class Run:
             if h in seen:
                 continue
             seen.add(h)
-            path = os.path.join(VERIF, "replays", self.pid, h + ".json")
+            path = os.path.join(OUT, "replays", self.pid, h + ".json")
             with open(path, "w") as f:
                 json.dump({"property": self.pid, "what": what, "seed": self.seed, "tier": self.tier,
                            "found_failing_input": found, "replay": replay,
@@ -497,7 +499,7 @@ class Run:
               "seed": self.seed, "level": self.level, "coverage": self.cov,
               "assumptions": self.assumptions, "wall_s": round(time.time() - self.t0, 2),
               "violations": len(lines), "notes": self.notes}
-        with open(os.path.join(VERIF, "evidence", self.pid + ".json"), "w") as f:
+        with open(os.path.join(OUT, "evidence", self.pid + ".json"), "w") as f:
             json.dump(ev, f, indent=1, default=str)
         for l in lines:
             print(l)
